@@ -4,7 +4,7 @@ import sys, json, os, shutil
 src, sid, prop, detected, notes = sys.argv[1:6]
 d = f'/verif/seeded/{sid}'
 os.makedirs(d, exist_ok=True)
-shutil.copy(f'{src}/patch.diff', f'{d}/patch.diff')
+shutil.copy(f'{src}/patch.rebased.diff' if os.path.exists(f'{src}/patch.rebased.diff') else f'{src}/patch.diff', f'{d}/patch.diff')
 shutil.copy(f'{src}/demo_test.go', f'{d}/demo_test.go.txt')  # .txt: must not be picked up as a Go package
 meta = {}
 try:
